@@ -135,6 +135,15 @@ def h_ops(I, plan, lo, hi):
             I.goal("new-session")
         elif op == "persist":
             do_persist(I, j, ref, sessions, k, si, d, lo, hi)
+        elif op == "replace":
+            # a retransmission journaled under a number (used already or not): takes the row's
+            # place, other rows and all counters stay
+            seq = I.int(f"seq{k}", lo, hi)
+            m = msg_bytes(seq, "R%d" % k)
+            j.persist_msg(m, sessions[si], d, replace=True)
+            if ref.has(si, d, seq):
+                I.goal("replaced")
+            ref.replace(si, d, seq, m)
         elif op == "set":
             nout = I.int(f"new_out{k}", 1, hi + 1)
             nin = I.int(f"new_in{k}", 1, hi + 1)
@@ -188,13 +197,13 @@ def cells(tier):
                             dict(rows=[(si, d.name) for si, d in lay], numbers=sb, set=f"symbolic session; new values symbolic ({mname})"),
                             goals=["stored", "set"]))
     plans = [("persist", "persist", "set"), ("persist", "set", "persist"), ("persist", "load", "all"),
-             ("persist", "newsession", "persist"), ("newsession", "persist", "persist")]
+             ("persist", "newsession", "persist"), ("newsession", "persist", "persist"), ("persist", "replace", "all")]
     if not quick:
-        plans += [("persist", "newsession", "persist", "persist"), ("persist", "persist", "persist", "set"), ("set", "persist", "set"), ("persist", "set", "load", "all")]
+        plans += [("persist", "newsession", "persist", "persist"), ("persist", "persist", "persist", "set"), ("set", "persist", "set"), ("persist", "set", "load", "all"), ("persist", "persist", "replace", "persist")]
     for pl in plans:
         out.append(Cell("ops/" + "-".join(pl), (lambda I, pl=pl: h_ops(I, pl, lo, hi)),
                         dict(plan=list(pl), session_and_direction="symbolic per step", numbers=sb),
-                        goals=["stored"] + (["new-session", "duplicate"] if "newsession" in pl else []), budget_s=2400))
+                        goals=["stored"] + (["new-session", "duplicate"] if "newsession" in pl else []) + (["replaced"] if "replace" in pl else []), budget_s=2400))
     out.append(Cell("digits", h_digits, dict(number="symbolic in [1,10^5]"), goals=["stored"]))
     return out
 
